@@ -26,6 +26,18 @@
    workers of FileSet.map run in parallel): `done` is universally quantified.  move_given_sound is the form the
    harness evaluates on the tree observed after such a move; move_sequential the special case of one worker.
 
+   post_reader is `callable(file_info, file_data)`: in the model a function of the ENTRY of the file and of the data.
+   read_applies_post_reader_to_own_entry: read(file_info) = post_reader applied to the FileInfo the caller handed in and
+   to what the handler returns for the (decompressed) content; the same through fileset[t] (get_applies_...: the entry
+   the generated name parses to), collect / icollect / fileset[s:e] (collect_applies_...: each file with its own
+   entry, which is the one find() reports) and move(convert=f) (convert_applies_...: f receives post_reader of the
+   SOURCE file's entry); decompression_is_transparent: the handler's output does not depend on whether the file is
+   stored compressed, so the only thing that differs is the entry -- the file's own, never a temporary file's.
+
+   A copy is an independent file (copy_is_independent): after move(copy=True) a later write to the original leaves the
+   copy's content as it is and vice versa -- the disk is a map path -> content; an implementation whose copy shares its
+   storage with the original (a hard link) is not a refinement of it, which the harness observes by overwriting in place.
+
    NOT PROVED (named gaps):
      * end-field sets other than none / as complete as the start / a sub-day suffix (not proved in C02 either).
      * the order in which worker threads / processes of FileSet.map treat the selected files (property C10): the model
@@ -114,18 +126,20 @@ Theorem move_hyp_sound : forall (F G : fset) sl (d : disk), move_hyp Data Bytes 
   (forall q, In q qs -> dlook q d = None).
 Proof. exact (move_hyp_sound_thm Data Bytes pack unpack). Qed.
 
-(* convert: what was readable through F as y reads through G as post_G (f y) -- through both handlers, with
-   G's write_args / read_args and (de)compression by the new name *)
-Theorem convert_reads_back : forall (F G : fset) f p q b c y,
+(* convert: what was readable through F as y (file en, post_reader of F applied to en) reads through G under the
+   new name (any FileInfo en' with that path) as post_G en' (f y) -- through both handlers, with G's write_args /
+   read_args and (de)compression by the new name *)
+Theorem convert_reads_back : forall (F G : fset) f en en' b c y,
   codec_ok -> rargs G = wargs G -> zc G = zd G ->
-  decode F p b = Good y -> recode F G f p q b = Good c -> decode G q c = Good (post G (f y)).
+  decode F en b = Good y -> recode F G f en (e_path en') b = Good c -> decode G en' c = Good (post G en' (f y)).
 Proof. exact (convert_reads_back_thm Data Bytes enc dec pack unpack). Qed.
 
-(* write, then read: the object comes back (post_reader applied), through the handler with write_args = read_args
-   and through compress / decompress when the name ends in a compression suffix; no other file changes *)
-Theorem write_read : forall (F : fset) x p (d d' : disk),
-  codec_ok -> rargs F = wargs F -> zc F = zd F -> write_file F x p d = Good d' ->
-  read_file F p d' = Good (post F x) /\ (forall r, r <> p -> dlook r d' = dlook r d).
+(* write, then read: the object comes back (post_reader applied to the FileInfo en the reader hands in -- any
+   FileInfo with that path -- and the object), through the handler with write_args = read_args and through
+   compress / decompress when the name ends in a compression suffix; no other file changes *)
+Theorem write_read : forall (F : fset) x en (d d' : disk),
+  codec_ok -> rargs F = wargs F -> zc F = zd F -> write_file F x (e_path en) d = Good d' ->
+  read_file F en d' = Good (post F en x) /\ (forall r, r <> e_path en -> dlook r d' = dlook r d).
 Proof. exact (write_read_thm Data Bytes enc dec pack unpack). Qed.
 
 (* fileset[s:e] = x is found again under exactly the period (s, e): find(a, b) returns the file with times (s, e)
@@ -298,6 +312,70 @@ Theorem move_total_conversion : forall (F G : fset) copy conv (d : disk) en,
   move1p F G copy (option_map (fun f x => Some (f x)) conv) d en = move1 Data Bytes enc dec pack unpack F G copy conv d en.
 Proof. exact (move1p_total Data Bytes enc dec pack unpack). Qed.
 
+(* ---- post_reader is handed the FileInfo of the file that is read.  `handler_read F p b` = what the handler returns for
+   the content b of a file named p (decompressed when the name ends in a compression suffix, read with read_args).
+   read(file_info) applies post_reader to the FileInfo `en` the caller handed in and to that object: the path, the
+   times and the attributes post_reader sees are those of the file of the fileset -- never those of the temporary
+   decompressed file the handler opened. *)
+Notation handler_read := (handler_read Data Bytes dec unpack).
+Notation encode := (encode Data Bytes enc pack).
+
+Theorem read_applies_post_reader_to_own_entry : forall (F : fset) en (d : disk),
+  read_file F en d = match dlook (e_path en) d with
+                     | None => Bad ENoFile
+                     | Some b => rbind (handler_read F (e_path en) b) (fun x => Good (post F en x))
+                     end /\
+  step (ORead F en) d = rbind (read_file F en d) (fun x => Good (d, VData x)).
+Proof. exact (read_own_entry_thm Data Bytes enc dec pack unpack). Qed.
+
+(* fileset[t] (a file with exactly the generated name exists): post_reader gets get_info(name), the entry find() reports *)
+Theorem get_applies_post_reader_to_found_entry : forall (F : fset) t p s e a b (d : disk),
+  render (tpl F) t t [] = Ok p -> dlook p d = Some b -> finfo F p = Ok (s, e, a) ->
+  step (OGet F t) d = rbind (handler_read F p b) (fun x => Good (d, VData (post F (En p s e a) x))).
+Proof. exact (get_own_entry_thm Data Bytes enc dec pack unpack). Qed.
+
+(* collect / icollect / fileset[s:e]: one result per file found, in the order of find(); each is post_reader applied to
+   the entry of ITS OWN file -- the path, times and attributes that find() reports, which are those the name parses to *)
+Theorem collect_applies_post_reader_to_own_entries : forall (F : fset) sl (d d' : disk) l,
+  step (OCollect F sl) d = Good (d', VList l) ->
+  d' = d /\ exists es, find F sl d = Good es /\
+  Forall2 (fun en py => fst py = e_path en /\ finfo F (e_path en) = Ok (e_s en, e_e en, e_attr en) /\
+                        exists b x, dlook (e_path en) d = Some b /\ handler_read F (e_path en) b = Good x /\
+                                    snd py = post F en x) es l.
+Proof. exact (collect_own_entries_thm Data Bytes enc dec pack unpack). Qed.
+
+(* move(convert=f): the object handed to f is post_reader applied to the entry of the SOURCE file and what its handler read *)
+Theorem convert_applies_post_reader_to_own_entry : forall (F G : fset) f en q b c,
+  new_content F G (Some f) en q b = Good c ->
+  exists x, handler_read F (e_path en) b = Good x /\ encode G (f (post F en x)) q = Some c.
+Proof. exact (convert_own_entry_thm Data Bytes enc dec pack unpack). Qed.
+
+(* transparent decompression: for the packed content under a name with a compression suffix the handler returns what it
+   returns for the plain content under a name without one; with the theorems above, what read / fileset[t] / collect /
+   convert return for a compressed file differs from the plain case ONLY in the entry post_reader is given -- its own *)
+Theorem decompression_is_transparent : forall (F : fset) p p' f b, codec_ok -> zd F = true ->
+  zfmt p' = Some f -> zfmt p = None -> handler_read F p' (pack f b) = handler_read F p b.
+Proof. exact (decompression_transparent_thm Data Bytes enc dec pack unpack). Qed.
+
+(* ---- a copy is an independent file.  Under the hypotheses of move_conserves, after move(copy=True) -- with or without
+   conversion -- every selected file en has its content b at its own name and the (converted) content c at the target
+   name q, q is another path, and a LATER write to one of the two names (through any fileset H, any object x) leaves
+   the content under the other name as it is: overwriting the original does not change the copy, overwriting the
+   copy does not change the original. *)
+Theorem copy_is_independent : forall (F G H : fset) conv sl (d d1 d2 : disk) es qs en q x,
+  find F sl d = Good es ->
+  Forall2 (fun en q => target G en = Ok q) es qs ->
+  NoDup (map e_path es) -> NoDup qs ->
+  (forall q, In q qs -> dlook q d = None) ->
+  (forall en, In en es -> dlook (e_path en) d <> None) ->
+  move F G true conv sl d = Good d1 ->
+  In en es -> target G en = Ok q ->
+  exists b c, dlook (e_path en) d = Some b /\ new_content F G conv en q b = Good c /\
+    dlook (e_path en) d1 = Some b /\ dlook q d1 = Some c /\ e_path en <> q /\
+    (write_file H x (e_path en) d1 = Good d2 -> dlook q d2 = Some c) /\
+    (write_file H x q d1 = Good d2 -> dlook (e_path en) d2 = Some b).
+Proof. exact (copy_independent_thm Data Bytes enc dec pack unpack). Qed.
+
 (* ---- arguments of a single call.  `kcode` = what a keyword dictionary means to the handler. *)
 Variable kcode : kwargs -> Z.
 Notation fobj := (@fobj Data).
@@ -308,8 +386,8 @@ Notation calls := (calls Data Bytes enc dec pack unpack kcode).
 (* O.read(p, **a): the file is read with the dictionary {**O.read_args, **a} -- the call's own arguments override
    the defaults key by key, the other defaults stay -- and the object O is afterwards what it was; without
    arguments the call sees exactly the defaults *)
-Theorem read_with_args : forall (O : fobj) a p (d : disk),
-  call_step O (CRead a p) d = (O, rbind (read_file (view O a []) p d) (fun x => Good (d, VData x))) /\
+Theorem read_with_args : forall (O : fobj) a (en : entry) (d : disk),
+  call_step O (CRead a en) d = (O, rbind (read_file (view O a []) en d) (fun x => Good (d, VData x))) /\
   rargs (view O a []) = kcode (kmerge (o_rd O) a) /\
   (forall k, klook k (kmerge (o_rd O) a) = match klook k a with Some v => Some v | None => klook k (o_rd O) end) /\
   view O [] [] = FSet (o_tpl O) (o_cov O) (o_hid O) (kcode (o_rd O)) (kcode (o_wd O)) (o_post O) (o_zc O) (o_zd O).
@@ -335,10 +413,10 @@ Proof. exact (args_do_not_stick_thm Data Bytes enc dec pack unpack kcode). Qed.
 
 (* write_read with per-call arguments: written with the write arguments aw of one call and read with the read
    arguments ar of another, the object comes back when the two merged dictionaries mean the same to the handler *)
-Theorem write_read_with_args : forall (O : fobj) aw ar x p (d d' : disk), codec_ok ->
+Theorem write_read_with_args : forall (O : fobj) aw ar x (en : entry) (d d' : disk), codec_ok ->
   kcode (kmerge (o_rd O) ar) = kcode (kmerge (o_wd O) aw) -> o_zc O = o_zd O ->
-  snd (call_step O (CWrite aw x p) d) = Good (d', VNone) ->
-  snd (call_step O (CRead ar p) d') = Good (d', VData (o_post O x)) /\ (forall r, r <> p -> dlook r d' = dlook r d).
+  snd (call_step O (CWrite aw x (e_path en)) d) = Good (d', VNone) ->
+  snd (call_step O (CRead ar en) d') = Good (d', VData (o_post O en x)) /\ (forall r, r <> e_path en -> dlook r d' = dlook r d).
 Proof. exact (write_read_with_args_thm Data Bytes enc dec pack unpack kcode). Qed.
 
 End Statements.
@@ -353,10 +431,10 @@ Example nonvacuous :
   let F : t_fset := FSet [Lit (s2l "R/a/"); T false FYear; Lit (s2l "/"); T false FMonth; Lit (s2l "/"); T false FDay;
                  Lit (s2l "/"); U (s2l "sat") (Some UAny); Lit (s2l "_"); T false FHour; T false FMinute; T false FSecond;
                  Lit (s2l "-"); T true FYear; T true FMonth; T true FDay; T true FHour; T true FMinute; T true FSecond;
-                 Lit (s2l ".pkl")] None 1 3 3 (Z.add 100) true true in
+                 Lit (s2l ".pkl")] None 1 3 3 (t_add 100) true true in
   let G : t_fset := FSet [Lit (s2l "R/b/"); U (s2l "sat") (Some UAny); Lit (s2l "_"); T false FYear; T false FDoy; Lit (s2l "T");
                  T false FHour; T false FMinute; T false FSecond; Lit (s2l "-"); T true FYear; T true FDoy;
-                 T true FHour; T true FMinute; T true FSecond; Lit (s2l ".json.gz")] None 2 0 0 (fun x => x) true true in
+                 T true FHour; T true FMinute; T true FSecond; Lit (s2l ".json.gz")] None 2 0 0 (fun _ x => x) true true in
   let d := in_disk [("R/a/2017/12/31/noaa_230000-20180101010000.pkl"%string, [1; 13]);
                     ("R/a/2018/01/01/metop_120000-20180101123000.pkl"%string, [1; 23]);
                     ("R/a/2018/01/03/gpm_060000-20180103070000.pkl"%string, [1; 33])] in
@@ -367,7 +445,7 @@ Example nonvacuous :
     TGood [("R/b/metop_2018001T120000-2018001123000.json.gz"%string, [11; 2; 125]);
            ("R/b/noaa_2017365T230000-2018001010000.json.gz"%string, [11; 2; 115]);
            ("R/a/2018/01/03/gpm_060000-20180103070000.pkl"%string, [1; 33])] TNone /\
-  run_step (ORead G (s2l "R/b/noaa_2017365T230000-2018001010000.json.gz"))
+  run_step (ORead G (t_info G (s2l "R/b/noaa_2017365T230000-2018001010000.json.gz")))
            [("R/b/noaa_2017365T230000-2018001010000.json.gz"%string, [11; 2; 115])] =
     TGood [("R/b/noaa_2017365T230000-2018001010000.json.gz"%string, [11; 2; 115])] (TData 115) /\
   codec_ok Z (list Z) t_enc t_dec t_pack t_unpack.
@@ -384,7 +462,7 @@ Qed.
 Example nonvacuous_partial_end :
   let F : t_fset := FSet [Lit (s2l "R/a/"); T false FYear; Lit (s2l "/"); T false FMonth; Lit (s2l "/"); T false FDay;
                  Lit (s2l "/"); T false FHour; T false FMinute; T false FSecond; Lit (s2l "-");
-                 T true FHour; T true FMinute; T true FSecond; Lit (s2l ".pkl")] None 1 0 0 (fun x => x) true true in
+                 T true FHour; T true FMinute; T true FSecond; Lit (s2l ".pkl")] None 1 0 0 (fun _ x => x) true true in
   exists s e e2 r2,
     mk 2017 12 31 23 30 0 0 = Some s /\ mk 2018 1 1 0 10 0 0 = Some e /\
     mk 2018 1 2 22 30 0 0 = Some e2 /\ mk 2018 1 1 22 30 0 0 = Some r2 /\
@@ -405,8 +483,8 @@ Qed.
    without an explicit selection takes both files *)
 Example nonvacuous_empty_selection :
   let F : t_fset := FSet [Lit (s2l "R/a/"); T false FYear; T false FMonth; T false FDay; Lit (s2l ".pkl")]
-                         None 1 0 0 (fun x => x) true true in
-  let G : t_fset := FSet [Lit (s2l "R/b/"); T false FYear; T false FDoy; Lit (s2l ".pkl")] None 1 0 0 (fun x => x) true true in
+                         None 1 0 0 (fun _ x => x) true true in
+  let G : t_fset := FSet [Lit (s2l "R/b/"); T false FYear; T false FDoy; Lit (s2l ".pkl")] None 1 0 0 (fun _ x => x) true true in
   let d := [("R/a/20180101.pkl"%string, [1; 5]); ("R/a/20180102.pkl"%string, [1; 6])] in
   let none := Sel 0 315537897599999999 [] [] (Some []) in
   let all := Sel 0 315537897599999999 [] [] None in
@@ -422,16 +500,16 @@ Proof. cbv zeta. repeat split; vm_compute; reflexivity. Qed.
    later read() gives 110 again; written with offset=9 and read with offset=9 the object comes back *)
 Example nonvacuous_call_args :
   let O : t_fobj := FObj [Lit (s2l "R/a/"); T false FYear; T false FMonth; T false FDay; Lit (s2l ".pkl")] None 1
-                         (kw_in [("offset"%string, 3)]) (kw_in [("offset"%string, 3)]) (Z.add 100) true true in
-  let p := s2l "R/a/20180101.pkl" in
+                         (kw_in [("offset"%string, 3)]) (kw_in [("offset"%string, 3)]) (t_add 100) true true in
+  let p := s2l "R/a/20180101.pkl" in let pe := bare p in
   let d := [("R/a/20180101.pkl"%string, [1; 13])] in
-  run_call O (CRead [] p) d = (TGood d (TData 110), [("offset"%string, 3)], [("offset"%string, 3)]) /\
-  run_call O (CRead (kw_in [("offset"%string, 5)]) p) d = (TGood d (TData 108), [("offset"%string, 3)], [("offset"%string, 3)]) /\
-  t_calls O [CRead (kw_in [("offset"%string, 5)]) p; CRead [] p] (in_disk d) = (O, Good (in_disk d, [VData 108; VData 110])) /\
+  run_call O (CRead [] pe) d = (TGood d (TData 110), [("offset"%string, 3)], [("offset"%string, 3)]) /\
+  run_call O (CRead (kw_in [("offset"%string, 5)]) pe) d = (TGood d (TData 108), [("offset"%string, 3)], [("offset"%string, 3)]) /\
+  t_calls O [CRead (kw_in [("offset"%string, 5)]) pe; CRead [] pe] (in_disk d) = (O, Good (in_disk d, [VData 108; VData 110])) /\
   t_kcode (kmerge (o_rd O) (kw_in [("offset"%string, 9)])) = t_kcode (kmerge (o_wd O) (kw_in [("offset"%string, 9)])) /\
   run_call O (CWrite (kw_in [("offset"%string, 9)]) 20 p) d =
     (TGood [("R/a/20180101.pkl"%string, [1; 29])] TNone, [("offset"%string, 3)], [("offset"%string, 3)]) /\
-  run_call O (CRead (kw_in [("offset"%string, 9)]) p) [("R/a/20180101.pkl"%string, [1; 29])] =
+  run_call O (CRead (kw_in [("offset"%string, 9)]) pe) [("R/a/20180101.pkl"%string, [1; 29])] =
     (TGood [("R/a/20180101.pkl"%string, [1; 29])] (TData 120), [("offset"%string, 3)], [("offset"%string, 3)]).
 Proof. cbv zeta. repeat split; vm_compute; reflexivity. Qed.
 
@@ -446,9 +524,9 @@ Proof. cbv zeta. repeat split; vm_compute; reflexivity. Qed.
    cannot store 125 = 120 + 5. *)
 Example nonvacuous_failing_move :
   let F : t_fset := FSet [Lit (s2l "R/a/"); T false FYear; Lit (s2l "/"); T false FMonth; Lit (s2l "/"); T false FDay;
-                 Lit (s2l "/"); T false FHour; T false FMinute; T false FSecond; Lit (s2l ".pkl")] None 1 3 3 (Z.add 100) true true in
+                 Lit (s2l "/"); T false FHour; T false FMinute; T false FSecond; Lit (s2l ".pkl")] None 1 3 3 (t_add 100) true true in
   let G : t_fset := FSet [Lit (s2l "R/b/"); T false FYear; T false FDoy; Lit (s2l "T");
-                 T false FHour; T false FMinute; T false FSecond; Lit (s2l ".json.gz")] None 2 0 0 (fun x => x) true true in
+                 T false FHour; T false FMinute; T false FSecond; Lit (s2l ".json.gz")] None 2 0 0 (fun _ x => x) true true in
   let d := [("R/a/2017/12/31/230000.pkl"%string, [1; 13]); ("R/a/2018/01/01/120000.pkl"%string, [1; 23]);
             ("R/a/2018/01/03/060000.pkl"%string, [1; 33])] in
   let after := [("R/b/2017365T230000.json.gz"%string, [11; 2; 115]); ("R/a/2018/01/01/120000.pkl"%string, [1; 23]);
@@ -477,6 +555,45 @@ Example nonvacuous_failing_move :
             ("R/b/2017365T230000.json.gz"%string, [11; 2; 115])] TNone, TGood d TNone, [], true).
 Proof. cbv zeta. repeat split; vm_compute; reflexivity. Qed.
 
+(* non-vacuity of the post_reader law and of the independent copy, on the instance the harness runs: the SAME payload 13
+   stored plain (R/a/...pkl) and compressed (R/z/...pkl.gz) in two filesets whose post_reader LABELS the payload with the
+   file it is told it comes from (t_label 0: + 1000 * checksum of path, times, attributes).  Both reads return 13 + 1000 *
+   (the label of the file's OWN entry): the two labels differ from each other (the paths differ) and from the label of
+   any other path, e.g. of a temporary file /tmp/tmpab12cd; fileset[t] and collect give the same numbers as read().
+   Then the plain file is COPIED to a doy template: the copy holds [1; 13]; after overwriting the original with 77
+   the copy still holds [1; 13], and after overwriting the copy instead the original still holds [1; 13]. *)
+Example nonvacuous_label_and_copy :
+  let F : t_fset := FSet [Lit (s2l "R/a/"); T false FYear; T false FMonth; T false FDay; Lit (s2l ".pkl")]
+                         None 1 0 0 (t_label 0) true true in
+  let Zf : t_fset := FSet [Lit (s2l "R/z/"); T false FYear; T false FMonth; T false FDay; Lit (s2l ".pkl.gz")]
+                         None 1 0 0 (t_label 0) true true in
+  let G : t_fset := FSet [Lit (s2l "R/b/"); T false FYear; T false FDoy; Lit (s2l ".pkl")] None 1 0 0 (fun _ x => x) true true in
+  let d := [("R/a/20180101.pkl"%string, [1; 13]); ("R/z/20180101.pkl.gz"%string, [11; 1; 13])] in
+  let all := Sel 0 315537897599999999 [] [] None in
+  let ea := t_info F (s2l "R/a/20180101.pkl") in let ez := t_info Zf (s2l "R/z/20180101.pkl.gz") in
+  exists t la lz, mk 2018 1 1 0 0 0 0 = Some t /\
+    ea = En (s2l "R/a/20180101.pkl") t t [] /\ ez = En (s2l "R/z/20180101.pkl.gz") t t [] /\
+    t_lab ea = la /\ t_lab ez = lz /\ la <> lz /\
+    t_lab (En (s2l "R/../tmpab12cd") t t []) <> lz /\ t_lab (bare (s2l "R/z/20180101.pkl.gz")) <> lz /\
+    run_step (ORead F ea) d = TGood d (TData (13 + 1000 * la)) /\
+    run_step (ORead Zf ez) d = TGood d (TData (13 + 1000 * lz)) /\
+    run_step (OGet Zf t) d = TGood d (TData (13 + 1000 * lz)) /\
+    run_step (OCollect Zf all) d = TGood d (TList [("R/z/20180101.pkl.gz"%string, 13 + 1000 * lz)]) /\
+    op_hyp (OMove F G true None all) (in_disk d) = true /\
+    run_step (OMove F G true None all) d =
+      TGood (("R/b/2018001.pkl"%string, [1; 13]) :: d) TNone /\
+    run_step (OWriteAt F (s2l "R/a/20180101.pkl") 77) (("R/b/2018001.pkl"%string, [1; 13]) :: d) =
+      TGood [("R/a/20180101.pkl"%string, [1; 77]); ("R/b/2018001.pkl"%string, [1; 13]);
+             ("R/z/20180101.pkl.gz"%string, [11; 1; 13])] TNone /\
+    run_step (OWriteAt G (s2l "R/b/2018001.pkl") 77) (("R/b/2018001.pkl"%string, [1; 13]) :: d) =
+      TGood (("R/b/2018001.pkl"%string, [1; 77]) :: d) TNone.
+Proof.
+  cbv zeta. do 3 eexists. split; [vm_compute; reflexivity|]. split; [vm_compute; reflexivity|].
+  split; [vm_compute; reflexivity|]. split; [vm_compute; reflexivity|]. split; [vm_compute; reflexivity|].
+  split; [vm_compute; discriminate|]. split; [vm_compute; discriminate|]. split; [vm_compute; discriminate|].
+  repeat split; vm_compute; reflexivity.
+Qed.
+
 Print Assumptions move_conserves.
 Print Assumptions move_conserves_period.
 Print Assumptions move_succeeds.
@@ -499,6 +616,12 @@ Print Assumptions move_failure_conserves.
 Print Assumptions move_given_sound.
 Print Assumptions move_sequential.
 Print Assumptions move_total_conversion.
+Print Assumptions read_applies_post_reader_to_own_entry.
+Print Assumptions get_applies_post_reader_to_found_entry.
+Print Assumptions collect_applies_post_reader_to_own_entries.
+Print Assumptions convert_applies_post_reader_to_own_entry.
+Print Assumptions decompression_is_transparent.
+Print Assumptions copy_is_independent.
 Print Assumptions read_with_args.
 Print Assumptions write_with_args.
 Print Assumptions calls_keep_object.
